@@ -124,4 +124,9 @@ example :
         .cb 2 "b=1".toList, .cb 2 "OK".toList, .ok 2 [], .write 3 "X".toList,
         .err 3 552 "no".toList ] := by decide
 
+/-- the framing model has no length limit; the protocol's own one (`MAX_LENGTH`, regenerated from the source as
+`Gen.ctlMaxLength`) is no smaller than the 1 MiB the property names, so every line the statements quantify over
+(shorter than 2^20 bytes) is one the real line receiver delivers too (the correspondence runs lines of that length) -/
+theorem C01_max_length : 2 ^ 20 ≤ TxV.Gen.ctlMaxLength := by decide
+
 end TxV.Props.C01
